@@ -2,6 +2,7 @@
 
 Cancellation is the drop edge of a Yield terminator, a panicking callback is
 the unwind edge of a call: both are ordinary edges of the mir_built CFG."""
+from . import preds
 from .mcommon import *
 from .roles import PERMIT_ADT, classify_write, adt_of
 from .facts import strip_generics, Operand
@@ -185,7 +186,8 @@ def run(ctx):
         ok = len(subs) == 1 and can.resolve_operand(subs[0].term.args[1]) == '1_usize' and _atomic_field(can, subs[0].term, r.INNER, r.USERS)
         ctx.ob('R03.3', 'guard closure performs users -= 1 on the same counter', ok, ctx.where(cb),
                'closure does %s' % [can.resolve_operand(a) for s_ in subs for a in s_.term.args[:2]], construct='users-guard-closure')
-        others = [blk for blk in cb.blocks if blk.term.kind == 'call' and blk.idx not in [s_.idx for s_ in subs]
+        afail = preds.assertion_failure_blocks(cb, can)
+        others = [blk for blk in cb.blocks if blk.term.kind == 'call' and blk.idx not in [s_.idx for s_ in subs] and blk.idx not in afail
                   and not any(n.startswith('<std::sync::Arc') or 'Deref' in n for n in blk.term.callee_names())]
         ctx.ob('R03.3', 'guard closure does nothing else', not others, ctx.where(cb), '', construct='users-guard-closure-extra')
         d = ug_drop
